@@ -26,6 +26,10 @@ def mat_dgm(pts, rep):
         if not pts or not all(math.isfinite(x) and float(x).is_integer() for p in pts for x in p):
             raise Skip("not integral")
         return np.array(pts, dtype=np.int64).reshape(-1, 2)
+    if rep == "u8":
+        if not pts or not all(math.isfinite(x) and float(x).is_integer() and 0 <= x <= 255 for p in pts for x in p):
+            raise Skip("not representable as uint8")
+        return np.array(pts, dtype=np.uint8).reshape(-1, 2)
     if rep == "list":
         return [[float(x) for x in p] for p in pts]
     if rep == "ilist":
@@ -47,6 +51,14 @@ def mat_graph(g, fmt):
         return A.tolist()
     if fmt == "csr":
         return sps.csr_matrix(A)
+    if fmt == "csr0":                 # CSR that stores one of its zeros explicitly (as after A[i, j] = 0)
+        M = sps.csr_matrix(A).tolil()
+        free = [(i, j) for i in range(n) for j in range(n) if i != j and not A[i, j] and not A[j, i]]
+        M = M.tocoo()
+        rows, cols, vals = list(M.row), list(M.col), list(M.data)
+        if free:
+            rows.append(free[0][0]), cols.append(free[0][1]), vals.append(0)
+        return sps.coo_matrix((vals, (rows, cols)), shape=(n, n)).tocsr()
     raise InvalidCase("graph fmt")
 
 
@@ -496,7 +508,13 @@ def digest_args(args):
                 h.update(repr(k).encode())
                 walk(v[k])
         elif hasattr(v, "toarray"):
-            walk(v.toarray())
+            # sparse matrix: the stored structure is part of the caller's object, not only its dense value
+            h.update(("sp:" + getattr(v, "format", "?") + repr(v.shape)).encode())
+            for name in ("data", "indices", "indptr", "row", "col"):
+                a_ = getattr(v, name, None)
+                if a_ is not None:
+                    h.update(name.encode())
+                    walk(np.asarray(a_))
         else:
             h.update(repr(v).encode())
     walk(args)
